@@ -870,6 +870,9 @@ class Engine:
             if max_seconds and time.time() - t0 > max_seconds:
                 self.timed_out = True
                 break
+            if len(self.timeouts) >= 2:       # two paths already ran into the per-path time limit: stop this job (it is inconclusive / non-terminating anyway)
+                self.timed_out = True
+                break
             self.prefix = list(self.pending.pop())
             self.decisions = []
             self.solver = z3.Solver()
